@@ -260,12 +260,21 @@ def krylov_svd(idx, rep, rule):
 
 
 
-def _shape_rel(test, a):
-    """relation between rows and columns of operator `a` stated by a comparison of a.shape[0] and a.shape[1]:
-    one of 'r<c', 'r<=c', 'r>c', 'r>=c', 'r==c', 'r!=c' or None"""
+def _shape_rel(test, a, fnode=None):
+    """relation between rows and columns of operator `a` stated by a comparison of a.shape[0] and a.shape[1] (also through
+    locals bound to them, `rows, cols = a.shape`): one of 'r<c', 'r<=c', 'r>c', 'r>=c', 'r==c', 'r!=c' or None"""
     if not (isinstance(test, ast.Compare) and len(test.ops) == 1):
         return None
-    def axis(e):
+    def axis(e, depth=0):
+        if isinstance(e, ast.Name) and fnode is not None and depth < 3:
+            vals = [(v, p) for v, p, st in df.assignments(fnode).get(e.id, []) if not isinstance(v, ast.AugAssign)]
+            if len(vals) == 1:
+                v, p = vals[0]
+                if p is None:
+                    return axis(v, depth + 1)
+                if len(p) == 1 and isinstance(p[0], int) and isinstance(v, ast.Attribute) and v.attr == "shape" and isinstance(v.value, ast.Name) and v.value.id == a:
+                    return {0: "r", -2: "r", 1: "c", -1: "c"}.get(p[0])
+            return None
         if isinstance(e, ast.Subscript) and isinstance(e.value, ast.Attribute) and e.value.attr == "shape" and isinstance(e.value.value, ast.Name) and e.value.value.id == a:
             i = e.slice
             v = i.value if isinstance(i, ast.Constant) else (-i.operand.value if isinstance(i, ast.UnaryOp) and isinstance(i.op, ast.USub) and isinstance(i.operand, ast.Constant) else None)
@@ -308,7 +317,7 @@ def gram_side(idx, rep, rule_name="gram-side"):
             n += 1
             rels = {}
             for t, pol in df.branch_conditions(c, fi.node):
-                r = _shape_rel(t, a)
+                r = _shape_rel(t, a, fi.node)
                 if r is None:
                     continue
                 if not pol:
